@@ -172,6 +172,21 @@ func cmdCheck(args []string) {
 		}
 		fmt.Printf("VIOLATION property=%s replay=%s obligation=%s status=%s%s\n", *prop, rp, o.Name, o.Status, suffix)
 	}
+	if *verbose {
+		seenLast := map[string]bool{}
+		for _, o := range failed {
+			last := ""
+			if len(o.Trace) > 0 {
+				last = o.Trace[len(o.Trace)-1]
+			}
+			k := o.Name + "|" + last
+			if seenLast[k] {
+				continue
+			}
+			seenLast[k] = true
+			fmt.Fprintf(os.Stderr, "  FAILED %s path=%d status=%s last-event: %s\n", o.Name, o.Path, o.Status, last)
+		}
+	}
 	for _, e := range v.Errors {
 		fmt.Fprintln(os.Stderr, "MACHINERY-ERROR:", e)
 	}
